@@ -71,6 +71,13 @@ def run_rb(run, exe, trace_mod="TraceRingBuf", trace_cfg="TraceRingBuf.cfg", cfg
 def run(run):
     exe = build_vrt(run, "rb_drv", "rb_drv.c", ["librfn/ringbuf.c"])
     run_rb(run, exe)
+    # rings of 2^31 bytes and more, indices next to the end: sequential calls validated against RingBufBig.tla
+    res = require_ok(run, tlc(run, "RingBufBig", "RingBufBig_mc.cfg", tag="big-mc", constants_note={"H": 4, "lengths": "2,3,4,5,7,8"}), "RingBufBig MC")
+    if res["violated"]:
+        raise Infra("RingBufBig specification violates %s" % res["violated"])
+    account_mc(run, res, ["Put", "Get", "Empty"])
+    trh = exec_script(run, exe, [], "Huge\n", run.path("huge.ndjson"), "huge-rings")
+    check_trace(run, "huge-rings", "TraceRingBufBig", "TraceRingBufBig.cfg", trh)
     # release-style build (NDEBUG, unsigned char, -O2): random programs and schedules again
     exe2 = build_vrt(run, "rb_drv_alt", "rb_drv.c", ["librfn/ringbuf.c"], extra_flags=ALT_FLAGS)
     n = 2000 if run.thorough() else 400
